@@ -73,11 +73,10 @@ func (t *TaskNumMetric) Delete(taskID string, state meta.TaskState) {
 	t.numLock.Lock()
 	defer t.numLock.Unlock()
 
-	stateMap := t.getStateMap(state)
-	if stateMap == nil {
-		return
-	}
-	delete(stateMap, taskID)
+	// the recorded state may lag behind the store (a state update that was applied but reported as failed)
+	delete(t.initialTaskMap, taskID)
+	delete(t.runningTaskMap, taskID)
+	delete(t.pauseTaskMap, taskID)
 }
 
 func (t *TaskNumMetric) Add(taskID string, state meta.TaskState) {
